@@ -732,7 +732,6 @@ func isStepOf(v ssa.Value, phi *ssa.Phi, op token.Token) bool {
 	return ok && k == 1
 }
 
-
 // checkMergeGuard: the per-parent rewrite is applied only to inputs whose
 // Properties() carry the merge bit, and the parenthesised-path type does not
 // carry it ((path)[n] counts over the whole sequence).
